@@ -78,6 +78,9 @@ pub enum LAct {
     DropRequest(u8),
     /// a second answer to an answered request
     LateFire(u8),
+    /// n timer ids are handed out to timers that are never run (the process-wide counter moves on): later
+    /// timers of this history are numbered n further away from the earlier ones
+    Pad(u8),
 }
 
 pub mod legacy {
@@ -164,6 +167,12 @@ pub mod legacy {
             let mut want_clear: Option<TimerId> = None;
             let mut new_timer: Option<bool> = None; // Some(expects a notify request)
             let effects = match *a {
+                LAct::Pad(n) => {
+                    for _ in 0..n {
+                        drop(crux_time::command::Time::<Effect, Event>::notify_after(Duration::from_secs(1)));
+                    }
+                    continue;
+                }
                 LAct::Start(after) => {
                     new_timer = Some(true);
                     catch(|| core.process_event(Event::Start(after))).map_err(|p| format!("starting a legacy timer panicked: {p}"))?
@@ -601,6 +610,7 @@ pub fn strategy() -> BoxedStrategy<Case> {
         3 => any::<u8>().prop_map(LAct::Clear),
         1 => any::<u8>().prop_map(LAct::DropRequest),
         1 => any::<u8>().prop_map(LAct::LateFire),
+        1 => prop_oneof![0u8..4, 60u8..68, 124u8..132].prop_map(LAct::Pad),
     ];
     (prop::collection::vec(any::<bool>(), 1..4), prop::collection::vec(act, 0..20), prop::collection::vec(lact, 0..10), prop::collection::vec(0u8..3, 3)).prop_map(|(timers, acts, legacy, styles)| Case { timers, acts, legacy, styles }).boxed()
 }
